@@ -165,8 +165,6 @@ theorem builtin_ext (r : Remote) (f : Frame) (fs : List Frame) (ext : Bytes × N
     builtin r f fs ext ((47 :: t) :: args)
       = (ext.1, { r with last := ext.2 % 256, seen := some ((47 :: t) :: args) }) := by
   unfold builtin
-  have hsp : ((47 :: t) :: args == spawnWords r.ash) = false := by
-    cases r.ash <;> simp [spawnWords]
-  simp [hsp]
+  simp
 
 end Env
